@@ -163,10 +163,26 @@ pub fn check(c: &SoupCase, ctx: &mut CaseCtx) -> Result<(), Fail> {
     match oracle::check(&text, oracle::ALL) {
         Ok(info) => {
             classify(&info, ctx);
-            Ok(())
         },
-        Err(f) => ctx.fail(f.sig, f.msg),
+        Err(f) => return ctx.fail(f.sig, f.msg),
     }
+    // The same text through the router's two entry points (one case in four): an answer or an
+    // error, never a panic (a panic inside a case is reported by the runner as `panic:...`).
+    if nv_engine::fnv64(text.as_bytes()) % 4 == 0 {
+        ROUTER.with(|r| {
+            let r = r.borrow();
+            let _ = r.execute(&text);
+            let _ = r.execute_parsed(&text);
+        });
+        ctx.label("router:execute+execute_parsed");
+    }
+    Ok(())
+}
+
+thread_local! {
+    // one router per worker thread: the statements that get through only create and drop small
+    // tables, nodes and embeddings; no blob store, vault, cache, chain or cluster is configured
+    static ROUTER: std::cell::RefCell<query_router::QueryRouter> = std::cell::RefCell::new(query_router::QueryRouter::new());
 }
 
 pub fn classify(info: &oracle::Info, ctx: &mut CaseCtx) {
